@@ -91,18 +91,18 @@ package heapq
 //@
 //@ func (*Queue).pushUp
 //@   requires q != nil && 0 <= i && i < len(q.data)
-//@   requires [C05] upPre(q, i)
+//@   requires [C05,C08] upPre(q, i)
 //@   requires [C06] trk(q, 0)
 //@   ensures  where: 0 <= result && result <= i && q.data[result] == old(q.data[i])
 //@   ensures  outside: unchanged_outside(q.data)
 //@   ensures  beyond: backing(q.data, len(q.data)) == old(backing(q.data, len(q.data)))
-//@   ensures  [C05] heap: heapOK(q)
+//@   ensures  [C05,C08] heap: heapOK(q)
 //@   ensures  [C05] bag: bag(q.data) == old(bag(q.data))
 //@   ensures  [C06] tracked: trk(q, 0)
 //@   modifies elems(q.data), rep
 //@   loop 1: invariant idx: 0 <= i && i <= old(i) && i < len(q.data) && q.data[i] == old(q.data[i])
 //@   loop 1: invariant outside: unchanged_outside(q.data) && backing(q.data, len(q.data)) == old(backing(q.data, len(q.data)))
-//@   loop 1: invariant [C05] order: upPre(q, i)
+//@   loop 1: invariant [C05,C08] order: upPre(q, i)
 //@   loop 1: invariant [C05] bag: bag(q.data) == old(bag(q.data))
 //@   loop 1: invariant [C06] tracked: trk(q, 0)
 //@   loop 1: decreases i
